@@ -55,6 +55,13 @@ class Sym:
         if c.get('scalar') is not None:
             return ('const', int(c['scalar'], 16))
         if 'promoted' in c:
+            # `&CONST` promoted to a static: _1 = const k; _0 = &_1  (references are transparent here)
+            pr = getattr(self.fn, 'promoted', {}).get(c['promoted'])
+            if pr and len(pr['blocks']) == 1 and len(pr['blocks'][0]['stmts']) == 2:
+                a, b = pr['blocks'][0]['stmts']
+                if a['k'] == 'assign' and 'use' in a['rv'] and 'const' in a['rv']['use'] and a['rv']['use']['const'].get('scalar') is not None \
+                        and b['k'] == 'assign' and b['place']['local'] == 0 and 'ref' in b['rv'] and b['rv']['ref']['local'] == a['place']['local'] and not b['rv']['ref']['proj']:
+                    return ('const', int(a['rv']['use']['const']['scalar'], 16))
             return ('cpromoted', c['promoted'])
         if 'bytes' in c:
             return ('cbytes', c['bytes'], c.get('ty', ''))
